@@ -9,6 +9,7 @@ import (
 	"encoding/json"
 	"fmt"
 	"strings"
+	"time"
 
 	"github.com/apmckinlay/gsuneido/verifshim/vsched"
 
@@ -84,6 +85,79 @@ func RunOne(sc *Scenario, prefix []int, trace bool) (obs string, f *Failure, rec
 
 // Explore explores one scenario within c's budget, sharded by c.Shard.
 func Explore(c *lib.Ctx, sc *Scenario) {
+	ExploreAll(c, []*Scenario{sc})
+}
+
+// ExploreAll explores several scenarios bound-major: every scenario with
+// bound 0, then every scenario with bound 1, ... so that a time budget that
+// runs out cuts the deepest bound of the scenarios, never whole scenarios at
+// the end of the list.
+func ExploreAll(c *lib.Ctx, scs []*Scenario) {
+	var sts []*expState
+	maxBound := 0
+	for _, sc := range scs {
+		if c.Expired() {
+			c.Cap("scenario %s not started", sc.Name)
+			continue
+		}
+		sts = append(sts, prepare(c, sc))
+		maxBound = max(maxBound, sc.MaxBound)
+	}
+	for bound := 0; bound <= maxBound; bound++ {
+		var round []*expState
+		for _, st := range sts {
+			if !st.done && bound <= st.sc.MaxBound {
+				round = append(round, st)
+			}
+		}
+		// within a round every scenario gets an equal share of the budget that is
+		// left; what a scenario does not use goes to the ones after it
+		for i, st := range round {
+			slice := time.Now().Add(c.Remaining() / time.Duration(len(round)-i))
+			st.runBound(c, bound, func() bool {
+				if c.Expired() {
+					return true
+				}
+				if len(round)-i > 1 && time.Now().After(slice) {
+					st.sliced = true
+					return true
+				}
+				return false
+			})
+		}
+	}
+	// budget left over: the scenarios that were cut by their share (not by the
+	// budget) start their unfinished bound again and go on from there
+	for _, st := range sts {
+		if !st.sliced {
+			continue
+		}
+		if c.Expired() {
+			c.Cap("scenario %s: bound %d not completed on shard %d (%d executions)", st.sc.Name, st.cutBound, c.Shard, st.cutExecs)
+			continue
+		}
+		st.sliced, st.done = false, false
+		for bound := st.cutBound; bound <= st.sc.MaxBound && !st.done; bound++ {
+			st.runBound(c, bound, c.Expired)
+		}
+	}
+	for _, st := range sts {
+		st.finish(c)
+	}
+}
+
+type expState struct {
+	sc       *Scenario
+	outcomes map[uint64]bool
+	done     bool
+	sliced   bool // cut by its share of the budget in a round
+	cutBound int  // the bound that was cut
+	cutExecs int  // executions counted for the cut bound so far
+	o1       string
+	points   int
+}
+
+func prepare(c *lib.Ctx, sc *Scenario) *expState {
 	// determinism guard: the default schedule twice
 	o1, _, r1, _, _ := RunOne(sc, nil, false)
 	o2, _, r2, _, _ := RunOne(sc, nil, false)
@@ -108,59 +182,77 @@ func Explore(c *lib.Ctx, sc *Scenario) {
 			}
 		}
 	}
-	outcomes := map[uint64]bool{}
-	for bound := 0; bound <= sc.MaxBound; bound++ {
-		if c.Expired() {
-			c.Cap("scenario %s: bound %d not started", sc.Name, bound)
-			break
+	return &expState{sc: sc, outcomes: map[uint64]bool{}, o1: o1, points: len(r1.Points)}
+}
+
+func (es *expState) runBound(c *lib.Ctx, bound int, stop func() bool) {
+	sc := es.sc
+	if c.Expired() {
+		c.Cap("scenario %s: bound %d not started", sc.Name, bound)
+		es.done = true
+		return
+	}
+	run := func(ch *explore.Chooser) string {
+		x := sc.New()
+		out := vsched.Run(vsched.Config{MaxSteps: sc.MaxSteps, TimerBudget: sc.TimerBudget,
+			Monitor: x.Monitor, Symmetric: sc.Symmetric, StartMs: sc.StartMs, FreeSwitchCost: sc.FreeCost}, adapter{ch}, x.Main)
+		obs, f := x.Finish(out)
+		if ch.Diverge != "" {
+			lib.Infra("scenario %s: replay diverged: %s", sc.Name, ch.Diverge)
 		}
-		run := func(ch *explore.Chooser) string {
-			x := sc.New()
-			out := vsched.Run(vsched.Config{MaxSteps: sc.MaxSteps, TimerBudget: sc.TimerBudget,
-				Monitor: x.Monitor, Symmetric: sc.Symmetric, StartMs: sc.StartMs, FreeSwitchCost: sc.FreeCost}, adapter{ch}, x.Main)
-			obs, f := x.Finish(out)
-			if ch.Diverge != "" {
-				lib.Infra("scenario %s: replay diverged: %s", sc.Name, ch.Diverge)
-			}
-			if out.Status == "horizon" {
-				c.Count("horizon:"+sc.Name, 1)
-			}
-			if f != nil {
-				report(c, sc, ch.Rec.Choices, f)
-			}
-			return obs
+		if out.Status == "horizon" {
+			c.Count("horizon:"+sc.Name, 1)
 		}
-		st := explore.Explore(run, explore.Options{Bound: bound, Shard: c.Shard, NShards: c.NShards,
-			Stop: c.Expired})
-		c.Eval(int(st.Executions))
-		for h := range st.Outcomes {
-			if !outcomes[h] {
-				outcomes[h] = true
-				c.DistinctHash(h ^ hashName(sc.Name))
-			}
+		if f != nil {
+			report(c, sc, ch.Rec.Choices, f)
 		}
-		c.Count(fmt.Sprintf("execs:%s:pb%d", sc.Name, bound), int(st.Executions))
-		if st.Completed {
-			c.Count(fmt.Sprintf("shards_completed:%s:pb%d", sc.Name, bound), 1)
-		} else {
-			c.Cap("scenario %s: bound %d not completed on shard %d (%d executions)", sc.Name, bound, c.Shard, st.Executions)
-			break
-		}
-		if c.Shard == 0 {
-			c.Set("max_choice_depth:"+sc.Name, st.MaxDepth)
-		}
-		if c.Stopped() {
-			break
+		return obs
+	}
+	st := explore.Explore(run, explore.Options{Bound: bound, Shard: c.Shard, NShards: c.NShards,
+		Stop: stop})
+	n := int(st.Executions)
+	if bound == es.cutBound && es.cutExecs > 0 {
+		// second pass over a bound that was cut: count the executions once
+		n = max(0, n-es.cutExecs)
+		c.Count(fmt.Sprintf("execs:%s:pb%d", sc.Name, bound), -es.cutExecs)
+		es.cutExecs = 0
+	}
+	c.Eval(n)
+	for h := range st.Outcomes {
+		if !es.outcomes[h] {
+			es.outcomes[h] = true
+			c.DistinctHash(h ^ hashName(sc.Name))
 		}
 	}
+	c.Count(fmt.Sprintf("execs:%s:pb%d", sc.Name, bound), int(st.Executions))
+	if st.Completed {
+		c.Count(fmt.Sprintf("shards_completed:%s:pb%d", sc.Name, bound), 1)
+	} else {
+		if es.sliced && !c.Expired() {
+			es.cutBound, es.cutExecs = bound, int(st.Executions)
+		} else {
+			c.Cap("scenario %s: bound %d not completed on shard %d (%d executions)", sc.Name, bound, c.Shard, st.Executions)
+		}
+		es.done = true
+	}
 	if c.Shard == 0 {
-		c.Set("default_schedule_points:"+sc.Name, len(r1.Points))
+		c.Set("max_choice_depth:"+sc.Name, st.MaxDepth)
+	}
+	if c.Stopped() {
+		es.done = true
+	}
+}
+
+func (es *expState) finish(c *lib.Ctx) {
+	sc := es.sc
+	if c.Shard == 0 {
+		c.Set("default_schedule_points:"+sc.Name, es.points)
 		if c.NSamples() < 8 {
 			_, _, _, _, tr := RunOne(sc, nil, true)
 			if len(tr) > 40 {
 				tr = append(tr[:40], fmt.Sprintf("… %d more steps", len(tr)-40))
 			}
-			c.Sample(map[string]any{"scenario": sc.Name, "default_schedule_observation": trunc(o1, 600), "trace_head": tr})
+			c.Sample(map[string]any{"scenario": sc.Name, "default_schedule_observation": trunc(es.o1, 600), "trace_head": tr})
 		}
 	}
 }
